@@ -27,8 +27,10 @@ var substRE = regexp.MustCompile(`(?m)^//zz:subst\s+(\S+)\s+(\S+)`)
 // substModel maps a substituted import path to the model package directory
 // under /verif/harness and its import path inside the repo module.
 var substModel = map[string][2]string{
-	"os":          {"zzos", "github.com/regclient/regclient/internal/zzos"},
-	"archive/tar": {"zztar", "github.com/regclient/regclient/internal/zztar"},
+	"os":                         {"zzos", "github.com/regclient/regclient/internal/zzos"},
+	"archive/tar":                {"zztar", "github.com/regclient/regclient/internal/zztar"},
+	"github.com/yuin/gopher-lua": {"zzlua", "github.com/regclient/regclient/internal/zzlua"},
+	"github.com/regclient/regclient/cmd/regbot/internal/go2lua": {"zzgo2lua", "github.com/regclient/regclient/internal/zzgo2lua"},
 }
 
 var pkgDirRE = regexp.MustCompile(`(?m)^//zz:pkg\s+(\S+)`)
@@ -133,6 +135,7 @@ func Overlay(repo, verif string, hs []Harness) (map[string][]byte, []string, err
 			}
 			single := regexp.MustCompile(`(?m)^import\s+"` + regexp.QuoteMeta(sb[1]) + `"\s*$`)
 			inBlock := regexp.MustCompile(`(?m)^(\s*)"` + regexp.QuoteMeta(sb[1]) + `"\s*$`)
+			aliased := regexp.MustCompile(`(?m)^(\s*(?:import\s+)?)(\w+)\s+"` + regexp.QuoteMeta(sb[1]) + `"\s*$`)
 			alias := filepath.Base(sb[1])
 			for _, f := range files {
 				if !strings.HasSuffix(f.Name(), ".go") || strings.HasSuffix(f.Name(), "_test.go") {
@@ -147,6 +150,7 @@ func Overlay(repo, verif string, hs []Harness) (map[string][]byte, []string, err
 				}
 				out := single.ReplaceAll(src, []byte("import "+alias+" \""+model[1]+"\""))
 				out = inBlock.ReplaceAll(out, []byte("${1}"+alias+" \""+model[1]+"\""))
+				out = aliased.ReplaceAll(out, []byte("${1}${2} \""+model[1]+"\""))
 				if string(out) != string(src) {
 					ov[filepath.Join(pdir, f.Name())] = out
 				}
